@@ -106,6 +106,10 @@ def gen_cases(rng, tier, n_classes):
             if v0 is not gen.NOVALUE:
                 for _ in range(3):
                     kws.append(("corrupt", others + [[name, vg.corrupt(v0)]]))
+                for _ in range(4):
+                    dv = vg.deep_corrupt(fd, v0)
+                    if dv is not gen.NOVALUE:
+                        kws.append(("deep", others + [[name, dv]]))
             kws.append(("none", others + [[name, None]]))
             kws.append(("missing", others))
         if base is not None:
